@@ -308,3 +308,12 @@ package channel
 //@   at call Sleep#1 assert #every-read-error-is-handed-over-exactly-once chlen(c.Errs) == errsAtHead + 1
 //@   at call! Enqueue#1 assert #only-chunks-read-without-error-are-queued err == nil
 //@   at call! Enqueue#1 assert #nothing-handed-over-for-a-good-chunk chlen(c.Errs) == errsAtHead
+
+// ---- C01: what is done to the output before it is returned ------------------------------------------------------------------
+// trailing spaces are trimmed per line, then (when asked) the prompt pattern is removed, then surrounding return
+// characters and newlines; the library functions are uninterpreted, the clause fixes which is applied to what, in which order
+//@ func (*Channel).processOut [C01]
+//@   modifies alloc()
+//@   loop 1 invariant rangeindex < len(lines) && len(cleanLines) == len(lines) && lines === splitB(old(b), "\n") && b == old(b)
+//@   loop 1 invariant #every-line-loses-its-trailing-spaces forall k int :: 0 <= k && k <= rangeindex ==> cleanLines[k] == trimRightSet(lines[k], " ")
+//@   at return assert #lines-trimmed-then-prompt-stripped-then-surrounding-returns-and-newlines lines === splitB(old(b), "\n") && len(cleanLines) == len(lines) && (forall k int :: 0 <= k && k < len(lines) ==> cleanLines[k] == trimRightSet(lines[k], " ")) && result === trimSet(trimSet((strip ? reReplaceAll(c.PromptPattern, joinB(cleanLines, "\n"), "") : joinB(cleanLines, "\n")), c.ReturnChar), "\n")
